@@ -523,7 +523,9 @@ def run(repo, tier, out, props, resources):
         feature_sets = [f for f in FEATURE_SETS if f != "default"]
     cases, asts = [], []
     for resource in resources:
-        fam = family(resource, tier)
+        # the joins of the volumes / aggregated statements make each obligation several times costlier: the larger tables
+        # of the thorough tier are combined with the quick family there
+        fam = family(resource, "quick" if resource in ("volumes", "aggregated") else tier)
         if prefix == "C35":
             # per configuration: single leaves and their negations (the feature gates sit in the leaf resolvers and dataset builders)
             fam = [a for a in fam if nleaves(a) == 1]
